@@ -147,6 +147,8 @@ def reach_check(u, registry, tu_path, outdir, unwound=False):
     assert(0); it must be FAILURE (= reachable).  Always on the SAT back end
     (finding a model is what SAT is good at), optionally under the unit's
     concrete witness."""
+    if u.reach_unwind and not unwound:
+        unwound = 'reach'
     b, err = compile_and_instrument(u, registry, tu_path, outdir, '_reach', ['GV_REACH'], loop_contracts=not unwound)
     if b is None:
         return None, 'reach binary: ' + err
@@ -165,7 +167,7 @@ def reach_check(u, registry, tu_path, outdir, unwound=False):
     if u.kind == 'bounded' and u.unwind is not None:
         cmd += ['--unwind', str(u.unwind)]
     if unwound:
-        cmd += ['--unwind', str(u.fallback_unwind)]
+        cmd += ['--unwind', str(u.reach_unwind if unwound == 'reach' else u.fallback_unwind)]
     cmd += [f for f in u.flags if f.startswith('--object-bits') or f.startswith('--unwindset')]
     if (u.reach_backend or u.backend) == 'smt':
         cmd += ['--cvc5']
